@@ -236,8 +236,6 @@ static bool GC_Mem_Ptr(struct GC* gc, var ptr) {
 
 static void GC_Rem_Ptr(struct GC* gc, var ptr) {
   
-  if (gc->nslots is 0) { return; }
-  
   /* An object the running sweep has set aside: finalise it now if the
   ** sweep has not got to it yet. Finalised entries are tagged, not cleared */
   for (size_t i = 0; i < gc->freenum; i++) {
@@ -249,13 +247,17 @@ static void GC_Rem_Ptr(struct GC* gc, var ptr) {
     if (gc->freelist[i] is (var)((uintptr_t)ptr | 1)) { return; }
   }
   
+  /* Not registered, for example allocated while the collector was
+  ** stopped: there is no entry to remove but the object is still deleted */
+  if (gc->nslots is 0) { dealloc(destruct(ptr)); return; }
+  
   uint64_t i = GC_Hash(ptr) % gc->nslots;
   uint64_t j = 0;
   
   while (true) {
     
     uint64_t h = gc->entries[i].hash;
-    if (h is 0 or j > GC_Probe(gc, i, h)) { return; }
+    if (h is 0 or j > GC_Probe(gc, i, h)) { dealloc(destruct(ptr)); return; }
     if (gc->entries[i].ptr is ptr) {
       
       var freeitem = gc->entries[i].ptr;
